@@ -53,6 +53,30 @@ def call_sites(body):
     return [Site(body, bb, t) for (bb, t) in body.calls]
 
 
+def mutable_borrows_of_result(body, site):
+    """lines at which a `&mut` borrow is taken of the value a call returned (directly or after plain moves / copies of it): the value model follows
+    objects by where they were created, so a result that is edited in place before it is used would still look like the call's result"""
+    t = site.term
+    if not t.get("dest") or t["dest"]["pr"]:
+        return []
+    alias = {t["dest"]["l"]}
+    changed = True
+    while changed:
+        changed = False
+        for bb in body.reach:
+            for st in body.blocks[bb]["stmts"]:
+                if st["k"] == "assign" and not st["p"]["pr"] and st["rv"]["k"] == "use" and st["rv"]["o"]["k"] in ("move", "copy") \
+                        and not st["rv"]["o"]["p"]["pr"] and st["rv"]["o"]["p"]["l"] in alias and st["p"]["l"] not in alias:
+                    alias.add(st["p"]["l"])
+                    changed = True
+    out = []
+    for bb in body.reach:
+        for st in body.blocks[bb]["stmts"]:
+            if st["k"] == "assign" and st["rv"]["k"] == "ref" and st["rv"].get("mut") and st["rv"]["p"]["l"] in alias:
+                out.append(st["loc"]["line"])
+    return sorted(set(out))
+
+
 # ------------------------------------------------------------------ work lists
 # `let mut later = vec![]; for e in xs { if c(e) { later.push(f(e)) } } .. for y in later { g(y) }`: a list that is created empty, filled by exactly one
 # push and otherwise only iterated over is a queue of the pushed values. An element of it IS a pushed value, and code that runs for an element runs
